@@ -193,3 +193,42 @@ Proof.
   - apply Nat.eqb_eq. apply Permutation_length. exact HP.
   - apply (canon_from_sorted pairs [] arr); assumption.
 Qed.
+
+(* ---- the executable specification pins the arrangement: only the sorted one passes ---- *)
+Lemma nth_error_ext_eq {A} (l1 l2 : list A) : (forall i, nth_error l1 i = nth_error l2 i) -> l1 = l2.
+Proof.
+  revert l2. induction l1 as [|a l1 IH]; intros [|b l2] H; [reflexivity| | |].
+  - specialize (H 0%nat). discriminate.
+  - specialize (H 0%nat). discriminate.
+  - pose proof (H 0%nat) as H0. cbn [nth_error] in H0. inversion H0; subst. f_equal.
+    apply IH. intros i. exact (H (S i)).
+Qed.
+
+Lemma canon_from_nth pairs suf : forall i j p, canon_from pairs i suf = true ->
+  nth_error suf j = Some p -> In p pairs /\ rank pairs p = (i + j)%nat.
+Proof.
+  induction suf as [|q suf IH]; intros i j p Hc Hn; [destruct j; discriminate|].
+  cbn [canon_from] in Hc. rewrite !andb_true_iff in Hc. destruct Hc as [[Hm Hr] Hc].
+  destruct j as [|j]; cbn [nth_error] in Hn.
+  - inversion Hn; subst. split; [apply mem_pair_In; exact Hm|]. apply Nat.eqb_eq in Hr. lia.
+  - destruct (IH (S i) j p Hc Hn) as [H1 H2]. split; [exact H1|lia].
+Qed.
+
+Lemma canon_ok_unique pairs arr : NoDup pairs -> canon_ok pairs arr = true -> arr = vsort pairs.
+Proof.
+  intros HN Hc. unfold canon_ok in Hc. rewrite andb_true_iff in Hc. destruct Hc as [Hl Hc].
+  apply Nat.eqb_eq in Hl.
+  set (s := vsort pairs).
+  assert (HP : Permutation s pairs) by apply vsort_perm.
+  assert (HNs : NoDup s) by (apply (Permutation_NoDup (Permutation_sym HP)); exact HN).
+  assert (HSs : StronglySorted vle s) by apply vsort_sorted.
+  apply nth_error_ext_eq. intros i. destruct (nth_error arr i) as [p|] eqn:En.
+  - destruct (canon_from_nth pairs arr 0%nat i p Hc En) as [Hin Hr]. cbn [Nat.add] in Hr.
+    apply (Permutation_in p (Permutation_sym HP)) in Hin.
+    destruct (in_split _ _ Hin) as [pre [post Hs]].
+    rewrite <- (rank_perm _ _ p HP) in Hr. rewrite Hs in Hr.
+    rewrite rank_sorted in Hr; [|rewrite <- Hs; exact HSs|rewrite <- Hs; exact HNs].
+    rewrite Hs. subst i. symmetry. clear. induction pre as [|a pre IH]; [reflexivity|exact IH].
+  - apply nth_error_None in En. symmetry. apply nth_error_None.
+    rewrite (Permutation_length HP). lia.
+Qed.
